@@ -594,3 +594,63 @@ def density_harnesses(tier):
           normal_harness("ConditionalDiagonalNormal", [2]), normal_harness("ConditionalDiagonalNormal", [1, 2]),
           bernoulli_harness(1), bernoulli_harness(2), lotka_harness(), mg1_harness()]
     return hs
+
+
+# ------------------------------------------------------------------------------------------------------------------
+# C03: structure of Flow._log_prob  (change of variables: base log-density of the noise plus log-abs-det)
+# ------------------------------------------------------------------------------------------------------------------
+class PlainBase(Distribution):
+    """a base distribution whose log_prob takes no context argument (exercises the _context_used_in_base = False branch)"""
+
+    def log_prob(self, inputs):
+        pi = P(inputs)
+        out = np.empty((pi.shape[0],), dtype=object)
+        for b in range(pi.shape[0]):
+            a = rowargs(pi[b], None)
+            out[b] = UF("BASE", len(a))(*a)
+        return Sym.make(out, inputs.dtype)
+
+
+def flow_logprob_harness(base_kind, with_context, embedding):
+    B = 2
+
+    def run(h, ctx):
+        tr = StubTransform()
+        if base_kind == "StandardNormal": base = DN.StandardNormal([Dn])
+        elif base_kind == "ConditionalDiagonalNormal": base = DN.ConditionalDiagonalNormal([Dn], context_encoder=lambda c: torch.cat([c, c], dim=-1) if c.shape[-1] == Dn else c)
+        else: base = PlainBase()
+        flow = Flow(tr, base, embedding_net=StubEmbedding() if embedding else None)
+        flow.eval()
+        x = h.inp("x", (B, Dn)); c = h.inp("context", (B, 2)) if with_context else None
+        h.c = c
+        return flow.log_prob(x, context=c), flow.transform_to_noise(x, context=c)
+
+    def post(h, ctx, value):
+        lp, noise = value
+        px = P(h.inputs["x"])
+        er = embed_rows(h.c, embedding)
+        for b in range(B):
+            a = rowargs(px[b], er[b] if er is not None else None)
+            Trow = [UF(f"T_{d}", len(a))(*a) for d in range(Dn)]
+            L = UF("L", len(a))(*a)
+            if base_kind == "StandardNormal":
+                base_lp = std_normal_lp(Trow)
+            elif base_kind == "ConditionalDiagonalNormal":
+                base_lp = gaussian_lp(Trow, list(er[b]), list(er[b]))
+            else:
+                base_lp = UF("BASE", Dn)(*Trow)
+            ensure(h, ctx, "C03.log_prob-is-base-density-of-noise-plus-logabsdet", P(lp)[b] == base_lp + L)
+            for d in range(Dn):
+                ensure(h, ctx, "C03.noise-is-transform-of-input", P(noise)[b, d] == Trow[d])
+    hn = Harness(f"flow_log_prob[base={base_kind},context={with_context},embedding={embedding}]", run, post, functions=[Flow._log_prob, Flow.transform_to_noise, Flow.__init__])
+    return hn
+
+
+def flow_logprob_harnesses(tier):
+    hs = []
+    for base in ("StandardNormal", "ConditionalDiagonalNormal", "Plain"):
+        for wc in (False, True):
+            for emb in ((False, True) if wc else (False,)):
+                if base == "ConditionalDiagonalNormal" and not wc: continue
+                hs.append(flow_logprob_harness(base, wc, emb))
+    return hs
